@@ -277,7 +277,7 @@ def spec_call(eng, node, name, st):
         decl = node.args[0].value
         vars_ = []
         env = {}
-        for part in decl.split(","):
+        for part in S._split_top(decl):
             n, t = part.split(":", 1)
             ty = S.parse_type(t.strip())
             c = z3.Const("q_%s_%d" % (n.strip(), S._fresh[0]), S.sort_of(ty))
@@ -447,8 +447,8 @@ def _sb_get(eng, st, m, k):
 
 
 def _sb_contains(eng, st, sq, x):
-    xx = eng.coerce(x, sq.ty.elem)[0]
-    return mk_bool(z3.Contains(sq.t, z3.Unit(xx.t)))
+    xx = eng.pack(eng.coerce(x, sq.ty.elem)[0])
+    return mk_bool(seq_member(eng, sq, xx))
 
 
 def _sb_nodup(eng, st, sq):
@@ -1094,13 +1094,13 @@ def seq_method(eng, lv, recv, name, args, s):
         r = cnt(recv.t, v.t)
         # dependency contract of list.count: non-negative, positive iff element present
         s.assume(r >= 0)
-        s.assume((r > 0) == z3.Contains(recv.t, z3.Unit(v.t)))
+        s.assume((r > 0) == seq_member(eng, recv, v))
         return [(s, SV(INT, r))]
     if name == "remove":
         need_owned(eng, lv, s, "remove")
         v, c = eng.coerce(args[0], et)
         eng.pack(v)
-        present = z3.Contains(recv.t, z3.Unit(v.t))
+        present = seq_member(eng, recv, v)
 
         def cont(s2):
             new = seq_remove_first(eng, recv, v)
@@ -1125,6 +1125,15 @@ def seq_method(eng, lv, recv, name, args, s):
     raise Unsupported("list.%s" % name)
 
 
+def seq_member(eng, seq, v):
+    """Membership test on a sequence value.  For tuple elements a sidecar may supply an
+    uninterpreted membership predicate (more robust for quantifier instantiation than the
+    interpreted seq.contains)."""
+    if seq.ty.elem.kind == "tup" and "seq_member_tup" in eng.reg.specfuns:
+        return eng.reg.specfuns["seq_member_tup"](eng, seq, v)
+    return z3.Contains(seq.t, z3.Unit(v.t))
+
+
 def seq_remove_first(eng, seq, v):
     """list.remove: delete the first element equal to v (shifting the rest).  For sequences of
     references the term is wrapped in the named function rm_ref (defined by an axiom in the
@@ -1132,6 +1141,8 @@ def seq_remove_first(eng, seq, v):
     if seq.ty.elem.kind == "ref":
         f = eng.reg.ufun("rm_ref", z3.SeqSort(z3.IntSort()), z3.IntSort(), z3.SeqSort(z3.IntSort()))
         return f(seq.t, v.t)
+    if seq.ty.elem.kind == "tup" and "seq_remove_first_tup" in eng.reg.specfuns:
+        return eng.reg.specfuns["seq_remove_first_tup"](eng, seq, v)
     i = z3.IndexOf(seq.t, z3.Unit(v.t), 0)
     n = z3.Length(seq.t)
     return z3.If(z3.Contains(seq.t, z3.Unit(v.t)),
